@@ -75,6 +75,19 @@ func init() {
 	reg("time.runtimeNano", func(fr *frame, args []value) value { return ConstBV(64, 1000) })
 	reg("time.Since", func(fr *frame, args []value) value { return ConstBV(64, 0) })
 	reg("time.Until", func(fr *frame, args []value) value { return ConstBV(64, 0) })
+	reg("time.Sleep", func(fr *frame, args []value) value {
+		d := args[0].(*Term)
+		if d.IsConst() {
+			n := d.Int64()
+			if n < 0 {
+				n = 0
+			}
+			E.sleep(fr.g, n)
+		} else {
+			E.sleep(fr.g, -1)
+		}
+		return nil
+	})
 	reg("time.NewTicker", func(fr *frame, args []value) value {
 		d := args[0].(*Term)
 		if E.branch(Sle(d, ConstBV(64, 0))) {
